@@ -53,6 +53,62 @@ class Renamer(ast.NodeTransformer):
         return fn
 
 
+class AugExpand(ast.NodeTransformer):
+    """x += e  ->  x = x + e   (names only)"""
+    def visit_AugAssign(self, n):
+        self.generic_visit(n)
+        if isinstance(n.target, ast.Name):
+            return ast.Assign(targets=[ast.Name(id=n.target.id, ctx=ast.Store())],
+                              value=ast.BinOp(left=ast.Name(id=n.target.id, ctx=ast.Load()), op=n.op, right=n.value), lineno=n.lineno)
+        return n
+
+
+class IfInvert(ast.NodeTransformer):
+    """if c: A else: B  ->  if not c: B else: A   (plain two-armed ifs whose else is not an elif chain)"""
+    def visit_If(self, n):
+        self.generic_visit(n)
+        if n.orelse and not (len(n.orelse) == 1 and isinstance(n.orelse[0], ast.If)):
+            return ast.If(test=ast.UnaryOp(op=ast.Not(), operand=n.test), body=n.orelse, orelse=n.body, lineno=n.lineno)
+        return n
+
+
+class CmpFlip(ast.NodeTransformer):
+    """a < b -> b > a ; a == b -> b == a   (single comparisons)"""
+    FLIP = {ast.Lt: ast.Gt, ast.Gt: ast.Lt, ast.LtE: ast.GtE, ast.GtE: ast.LtE, ast.Eq: ast.Eq, ast.NotEq: ast.NotEq}
+
+    def visit_Compare(self, n):
+        self.generic_visit(n)
+        if len(n.ops) == 1 and type(n.ops[0]) in self.FLIP:
+            return ast.Compare(left=n.comparators[0], ops=[self.FLIP[type(n.ops[0])]()], comparators=[n.left])
+        return n
+
+
+class ExtractLocal(ast.NodeTransformer):
+    """return <expr>  ->  result__ = <expr>; return result__     (single new single-assignment local per return)"""
+    def __init__(self):
+        self.k = 0
+
+    def _block(self, stmts):
+        out = []
+        for st in stmts:
+            if isinstance(st, ast.Return) and st.value is not None and not isinstance(st.value, (ast.Name, ast.Constant)):
+                self.k += 1
+                nm = 'result__%d' % self.k
+                out.append(ast.Assign(targets=[ast.Name(id=nm, ctx=ast.Store())], value=st.value, lineno=st.lineno))
+                out.append(ast.Return(value=ast.Name(id=nm, ctx=ast.Load()), lineno=st.lineno))
+            else:
+                out.append(st)
+        return out
+
+    def generic_visit(self, node):
+        super().generic_visit(node)
+        for fld in ('body', 'orelse', 'finalbody'):
+            b = getattr(node, fld, None)
+            if isinstance(b, list) and b and isinstance(b[0], ast.stmt):
+                setattr(node, fld, self._block(b))
+        return node
+
+
 class DocStrip(ast.NodeTransformer):
     def _strip(self, node):
         self.generic_visit(node)
@@ -94,6 +150,14 @@ def main():
                                 Renamer().visit_FunctionDef(m)
             elif kind == 'docstrip':
                 t = DocStrip().visit(t)
+            elif kind == 'augexpand':
+                t = AugExpand().visit(t)
+            elif kind == 'ifinvert':
+                t = IfInvert().visit(t)
+            elif kind == 'cmpflip':
+                t = CmpFlip().visit(t)
+            elif kind == 'extract':
+                t = ExtractLocal().visit(t)
             elif kind == 'unparse':
                 pass
             else:
